@@ -145,6 +145,15 @@ CHECKS = {
             'f(X)=f(X1,X2), MIN/MAX(X)=MIN/MAX of the parts. Held on the executions observed.',
             'Trusted: vf/xlref folds. Dates inside areas and aggregates of no numbers accept either reading; text/blank '
             'arguments of AND/OR and non-numeric scalar arguments are not generated.'),
+    'C12': ('runtime monitoring: boundary oracle = independent select-then-fold (vf/xlref criterion semantics with outcome sets) '
+            'over generated columns and criteria, re-drawn through overrides',
+            'Three criteria columns over numbers, zero, negatives, mixed-case texts, texts with wildcard and regex-special '
+            'characters, numeric texts and blanks plus a numeric target column are filtered by SUMIF (with and without target, '
+            'derived geometry), SUMIFS, COUNTIFS and AVERAGEIFS with 1-3 pairs; criteria are numbers, texts, "op number" for all six '
+            'operators, "=text", "<>text", "op"&cell, cell references and wildcard patterns; 12% of the multi-range formulas are '
+            'mis-sized and must end in an error. Values are compared with the reference select-then-fold. Held on the executions observed.',
+            'Trusted: vf/xlref criterion semantics. Blank vs numeric criterion, numeric text vs number, boolean target cells: either '
+            'reading. Booleans/dates in criteria ranges and text in the target range are not generated.'),
     'C13': ('runtime monitoring: boundary oracle = lazy reference evaluator over all truth assignments of the condition cells; '
             'L1 evaluation trace (canary cells of untaken IF branches)',
             'All 125 skeletons of IF/IFS/IFERROR nests of depth <=2 (plus IF-only depth 3; thorough: sampled depth 3) are placed '
@@ -179,7 +188,7 @@ CHECKS = {
 }
 
 LEVELS = {}
-PENDING_REASON = 'check not built yet in this round (see DESIGN.md section 4); will be claimed once its monitor runs clean'
+PENDING_REASON = 'not claimed'
 
 
 def main():
